@@ -148,6 +148,13 @@ def quadrature_examples():
     # cubic that is a straight line with uniform speed
     L, e, cap = Q.length(("P", [(0, 0), (1, 1), (2, 2), (3, 3)]))
     assert near(L, 3 * math.sqrt(2))
+    # quadratic that turns back within the first 0.03 % of its parameter range (speed minimum at t = 3e-4): value from the closed form
+    # evaluated with 50-digit decimals.  (A plain grid search for speed minima misses the first cell: seen on the thorough tier of C15.)
+    L, e, cap = Q.length(("P", [(-15.125493514369573, -7.187238500585771), (-15.01236551137359, -7.283303935008953), (-380.7444271956622, 303.2870982441479)]))
+    assert near(L, 479.65780145317995, 1e-9), L
+    # near-collinear quadratic turning back at t = 0.25: (0,0) (-1, 1e-9) (2, 0): about 0.25 back and 2.25 forward
+    L, e, cap = Q.length(("P", [(0.0, 0.0), (-1.0, 1e-9), (2.0, 0.0)]))
+    assert near(L, 2.5, 1e-6), L
 
 
 @check
